@@ -52,6 +52,15 @@ type matcher struct {
 	total            int
 	Backtracks       int
 	usedLeadingSlash bool
+	// dead remembers (node, position) pairs below which nothing matches: whether text[pos:] matches below a node does
+	// not depend on what was captured on the way there, so a failed sub-search is never repeated. Without it, several
+	// catch-alls over a path of a few thousand bytes make the search exponential (a 2.9 KB path took minutes).
+	dead map[deadKey]struct{}
+}
+
+type deadKey struct {
+	n   *tnode
+	pos int
 }
 
 // walk tries to match text[pos:] below n. Priority at each position: static byte, then named parameter, then
@@ -60,6 +69,21 @@ func (m *matcher) walk(n *tnode, text string, pos int) *Route {
 	if pos == len(text) {
 		return n.route
 	}
+	k := deadKey{n, pos}
+	if _, ok := m.dead[k]; ok {
+		return nil
+	}
+	r := m.walk1(n, text, pos)
+	if r == nil {
+		if m.dead == nil {
+			m.dead = map[deadKey]struct{}{}
+		}
+		m.dead[k] = struct{}{}
+	}
+	return r
+}
+
+func (m *matcher) walk1(n *tnode, text string, pos int) *Route {
 	if nx := n.static[text[pos]]; nx != nil {
 		// consumed one literal byte
 		if r := m.walk(nx, text, pos+1); r != nil {
